@@ -13,6 +13,7 @@ import (
 	"time"
 	"context"
 	"syscall"
+	"crypto/tls"
 )
 
 // RTMP client / server endpoints built on the reference chunk codec and AMF0 codec.
@@ -54,10 +55,24 @@ func newRtmpConn(c net.Conn) *RtmpConn {
 }
 
 // DialRtmp connects and performs the simple handshake.
+// RtmpOverTLS: every RTMP connection the reference clients open is wrapped in TLS (for servers that run
+// RTMPS only). A process-wide switch: cases run one after the other inside a child.
+var RtmpOverTLS bool
+
 func DialRtmp(addr string, timeout time.Duration) (*RtmpConn, error) {
 	c, err := net.DialTimeout("tcp", addr, timeout)
 	if err != nil {
 		return nil, err
+	}
+	if RtmpOverTLS {
+		tc := tls.Client(c, &tls.Config{InsecureSkipVerify: true})
+		c.SetDeadline(time.Now().Add(timeout))
+		if err := tc.Handshake(); err != nil {
+			c.Close()
+			return nil, fmt.Errorf("tls handshake: %w", err)
+		}
+		c.SetDeadline(time.Time{})
+		return HandshakeRtmpOn(tc, timeout)
 	}
 	return HandshakeRtmpOn(c, timeout)
 }
